@@ -325,26 +325,30 @@ __in_range_p(struct dt_dt_s now, const struct dseq_clo_s *clo)
 			return dt_dt_in_range_p(now, clo->lst, clo->fst) == 1;
 		}
 	}
-	/* otherwise perform a simple range check */
+	/* otherwise perform a simple range check,
+	 * carries have kindly been stored in d.u, once we've been
+	 * around the clock B has been passed for good */
 	if (clo->dir > 0) {
 		if (clo->fst.t.u < clo->lst.t.u) {
 			/* dseq A B  with A < B */
-			return now.t.u >= clo->fst.t.u &&
+			return now.d.u == 0U &&
+				now.t.u >= clo->fst.t.u &&
 				now.t.u <= clo->lst.t.u;
 		} else {
-			/* dseq A B  with A > B and wrap-around,
-			 * carries have kindly been stored in d.u */
-			return now.t.u <= clo->lst.t.u || now.d.u == 0U;
+			/* dseq A B  with A > B and wrap-around */
+			return now.d.u == 0U ||
+				(now.d.u == 1U && now.t.u <= clo->lst.t.u);
 		}
 	} else if (clo->dir < 0) {
 		if (clo->fst.t.u > clo->lst.t.u) {
 			/* counting down from A to B */
-			return now.t.u <= clo->fst.t.u &&
+			return now.d.u == 0U &&
+				now.t.u <= clo->fst.t.u &&
 				now.t.u >= clo->lst.t.u;
 		} else {
-			/* count down from A to B with wrap around,
-			 * carries have kindly been stored in d.u */
-			return now.t.u >= clo->lst.t.u || now.d.u == 0U;
+			/* count down from A to B with wrap around */
+			return now.d.u == 0U ||
+				(now.d.u == -1U && now.t.u >= clo->lst.t.u);
 		}
 	}
 	return false;
